@@ -11,6 +11,7 @@
 -/
 import AioftpModel.Model.Lifecycle
 import AioftpModel.Lemmas.ReplyQueue
+import AioftpModel.Lemmas.Waits
 
 namespace C12
 open Model Model.Lifecycle Generated
@@ -206,5 +207,33 @@ example : (ReplyQueue.run ReplyQueue.facts ReplyQueue.init [.put, .put, .put, .t
     (ReplyQueue.run ReplyQueue.facts ReplyQueue.init [.put, .put, .put, .take, .writeOk, .take, .writeFail, .put]).unfinished = 0 := by decide
 
 end replyQueue
+
+/-! ### the throttle's waits do not outlive their caller (finding F21, repaired in /repo 31a4e2a) -/
+
+/-- **fact_throttle_wait_cancels_its_waits**: as regenerated from `common.py`, `ThrottleStreamIO.wait` starts a wait
+    for every limited throttle, awaits them all, and cancels them in a `finally` clause -/
+theorem fact_throttle_wait_cancels_its_waits :
+    Generated.throttleWaitOnEveryLimited = true ∧ Generated.throttleWaitCancelsItsWaits = true := by decide
+
+open Model.Waits in
+/-- **no_wait_outlives_its_caller**: under EVERY schedule of sleeps ending, cancellations of the caller and resumptions,
+    for any number of waits: once the caller has left `wait()` - because all were over or because it was cancelled
+    (ABOR, the session ending, `Server.close()`) - none of its waits is still asleep -/
+theorem no_wait_outlives_its_caller (n : Nat) (evs : List Model.Waits.Ev) (h : (runNow n evs).left = true) :
+    ∀ b ∈ (runNow n evs).pending, b = false := by
+  unfold runNow at h ⊢
+  rw [fact_throttle_wait_cancels_its_waits.2] at h ⊢
+  exact run_inv evs (init n) (init_inv n) h
+
+open Model.Waits in
+/-- the premise is met: two waits, one ends, the caller is cancelled and leaves -/
+example : (runNow 2 [.finish 0, .cancel, .resume]).left = true ∧ (runNow 2 [.finish 0, .cancel, .resume]).pending = [false, false] := by
+  decide
+
+open Model.Waits in
+/-- **old_wait_outlived_close** (what F21 was): without the `finally` clause a cancelled caller leaves its waits asleep -/
+theorem old_wait_outlived_close :
+    (run false (init 2) [.finish 0, .cancel, .resume]).left = true ∧ (run false (init 2) [.finish 0, .cancel, .resume]).pending = [false, true] := by
+  decide
 
 end C12
